@@ -43,6 +43,42 @@ type SignEnv struct {
 	Signs    map[string]int
 	Depth    int // helper inlining bound
 	Visited  int // blocks explored (evidence)
+
+	// Role-based classification (optional, used when Classify is nil): Role names the
+	// abstract quantity a value stands for ("" = none); the constant 0 has role "0".
+	// A comparison between two values with roles a and b is the atom "a:b" (a < b
+	// lexicographically; Signs holds the sign of a−b).  Roles of arguments are bound to
+	// the parameters of evaluated helpers.
+	Role  func(v ssa.Value) string
+	bound map[ssa.Value]string
+}
+
+func (e *SignEnv) roleOf(v ssa.Value) string {
+	v = Unwrap(v)
+	if r, ok := e.bound[v]; ok {
+		return r
+	}
+	if k, ok := ConstInt(v); ok && k == 0 {
+		return "0"
+	}
+	if e.Role != nil {
+		return e.Role(v)
+	}
+	return ""
+}
+
+func (e *SignEnv) classify(bo *ssa.BinOp) (string, bool, bool) {
+	if e.Classify != nil {
+		return e.Classify(bo)
+	}
+	rx, ry := e.roleOf(bo.X), e.roleOf(bo.Y)
+	if rx == "" || ry == "" || rx == ry {
+		return "", false, false
+	}
+	if rx < ry {
+		return rx + ":" + ry, false, true
+	}
+	return ry + ":" + rx, true, true
 }
 
 func cmpHolds(op token.Token, s int) (bool, bool) {
@@ -63,8 +99,20 @@ func cmpHolds(op token.Token, s int) (bool, bool) {
 	return false, false
 }
 
-// Eval evaluates a condition in block blk entered from pred (pred may be nil).
-func (e *SignEnv) Eval(v ssa.Value, blk, pred *ssa.BasicBlock, depth int) Tri {
+// Hist is the path suffix by which a block was entered: Hist[0] is the predecessor,
+// Hist[1] the predecessor's predecessor, ... (nil = unknown).  It resolves (nested) phis.
+type Hist [4]*ssa.BasicBlock
+
+func (h Hist) push(b *ssa.BasicBlock) Hist {
+	return Hist{b, h[0], h[1], h[2]}
+}
+
+func (h Hist) pop() Hist {
+	return Hist{h[1], h[2], h[3], nil}
+}
+
+// Eval evaluates a condition in block blk entered along hist.
+func (e *SignEnv) Eval(v ssa.Value, blk *ssa.BasicBlock, hist Hist, depth int) Tri {
 	switch x := v.(type) {
 	case *ssa.Const:
 		if x.Value != nil && x.Value.Kind() == constant.Bool {
@@ -75,10 +123,10 @@ func (e *SignEnv) Eval(v ssa.Value, blk, pred *ssa.BasicBlock, depth int) Tri {
 		}
 	case *ssa.UnOp:
 		if x.Op == token.NOT {
-			return e.Eval(x.X, blk, pred, depth).Not()
+			return e.Eval(x.X, blk, hist, depth).Not()
 		}
 	case *ssa.BinOp:
-		if atom, flipped, ok := e.Classify(x); ok {
+		if atom, flipped, ok := e.classify(x); ok {
 			s, known := e.Signs[atom]
 			if !known {
 				return Unknown
@@ -94,10 +142,10 @@ func (e *SignEnv) Eval(v ssa.Value, blk, pred *ssa.BasicBlock, depth int) Tri {
 			}
 		}
 	case *ssa.Phi:
-		if blk != nil && pred != nil && x.Block() == blk {
+		if blk != nil && hist[0] != nil && x.Block() == blk {
 			for i, p := range blk.Preds {
-				if p == pred {
-					return e.Eval(x.Edges[i], p, nil, depth)
+				if p == hist[0] {
+					return e.Eval(x.Edges[i], p, hist.pop(), depth)
 				}
 			}
 		}
@@ -113,6 +161,20 @@ func (e *SignEnv) Eval(v ssa.Value, blk, pred *ssa.BasicBlock, depth int) Tri {
 		if res.Len() != 1 || res.At(0).Type().String() != "bool" {
 			return Unknown
 		}
+		if e.Classify == nil {
+			if e.bound == nil {
+				e.bound = map[ssa.Value]string{}
+			}
+			for i, a := range x.Call.Args {
+				if i < len(f.Params) {
+					if r := e.roleOf(a); r != "" {
+						e.bound[f.Params[i]] = r
+					} else {
+						delete(e.bound, f.Params[i])
+					}
+				}
+			}
+		}
 		return e.callResult(f, depth-1)
 	}
 	return Unknown
@@ -121,7 +183,7 @@ func (e *SignEnv) Eval(v ssa.Value, blk, pred *ssa.BasicBlock, depth int) Tri {
 // callResult explores f and joins the values of its returns.
 func (e *SignEnv) callResult(f *ssa.Function, depth int) Tri {
 	var sawT, sawF, sawU bool
-	e.explore(f, depth, func(b, pred *ssa.BasicBlock) {
+	e.explore(f, depth, func(b *ssa.BasicBlock, hist Hist) {
 		if len(b.Instrs) == 0 {
 			return
 		}
@@ -129,7 +191,7 @@ func (e *SignEnv) callResult(f *ssa.Function, depth int) Tri {
 		if !ok || len(r.Results) != 1 {
 			return
 		}
-		switch e.Eval(RetVal(r, 0), b, pred, depth) {
+		switch e.Eval(RetVal(r, 0), b, hist, depth) {
 		case True:
 			sawT = true
 		case False:
@@ -149,12 +211,15 @@ func (e *SignEnv) callResult(f *ssa.Function, depth int) Tri {
 	return Unknown
 }
 
-// explore visits every (block, predecessor) pair reachable from the entry under the
+// explore visits every (block, path suffix) pair reachable from the entry under the
 // environment.
-func (e *SignEnv) explore(f *ssa.Function, depth int, visit func(b, pred *ssa.BasicBlock)) {
-	type st struct{ b, p *ssa.BasicBlock }
+func (e *SignEnv) explore(f *ssa.Function, depth int, visit func(b *ssa.BasicBlock, hist Hist)) {
+	type st struct {
+		b *ssa.BasicBlock
+		h Hist
+	}
 	seen := map[st]bool{}
-	work := []st{{f.Blocks[0], nil}}
+	work := []st{{f.Blocks[0], Hist{}}}
 	for len(work) > 0 {
 		s := work[len(work)-1]
 		work = work[:len(work)-1]
@@ -163,23 +228,24 @@ func (e *SignEnv) explore(f *ssa.Function, depth int, visit func(b, pred *ssa.Ba
 		}
 		seen[s] = true
 		e.Visited++
-		visit(s.b, s.p)
+		visit(s.b, s.h)
 		if len(s.b.Instrs) == 0 {
 			continue
 		}
+		nh := s.h.push(s.b)
 		if ifi, ok := s.b.Instrs[len(s.b.Instrs)-1].(*ssa.If); ok {
-			switch e.Eval(ifi.Cond, s.b, s.p, depth) {
+			switch e.Eval(ifi.Cond, s.b, s.h, depth) {
 			case True:
-				work = append(work, st{s.b.Succs[0], s.b})
+				work = append(work, st{s.b.Succs[0], nh})
 			case False:
-				work = append(work, st{s.b.Succs[1], s.b})
+				work = append(work, st{s.b.Succs[1], nh})
 			default:
-				work = append(work, st{s.b.Succs[0], s.b}, st{s.b.Succs[1], s.b})
+				work = append(work, st{s.b.Succs[0], nh}, st{s.b.Succs[1], nh})
 			}
 			continue
 		}
 		for _, n := range s.b.Succs {
-			work = append(work, st{n, s.b})
+			work = append(work, st{n, nh})
 		}
 	}
 }
@@ -188,7 +254,7 @@ func (e *SignEnv) explore(f *ssa.Function, depth int, visit func(b, pred *ssa.Ba
 func (e *SignEnv) Reaches(f *ssa.Function, target ssa.Instruction) bool {
 	hit := false
 	tb := target.Block()
-	e.explore(f, e.Depth, func(b, _ *ssa.BasicBlock) {
+	e.explore(f, e.Depth, func(b *ssa.BasicBlock, _ Hist) {
 		if b == tb {
 			hit = true
 		}
@@ -199,7 +265,7 @@ func (e *SignEnv) Reaches(f *ssa.Function, target ssa.Instruction) bool {
 // ReturnValue joins the bool result #idx of every reachable return of f.
 func (e *SignEnv) ReturnValue(f *ssa.Function, idx int) Tri {
 	var sawT, sawF, sawU bool
-	e.explore(f, e.Depth, func(b, pred *ssa.BasicBlock) {
+	e.explore(f, e.Depth, func(b *ssa.BasicBlock, hist Hist) {
 		if len(b.Instrs) == 0 {
 			return
 		}
@@ -210,7 +276,7 @@ func (e *SignEnv) ReturnValue(f *ssa.Function, idx int) Tri {
 		if f.Recover != nil && b == f.Recover {
 			return
 		}
-		switch e.Eval(RetVal(r, idx), b, pred, e.Depth) {
+		switch e.Eval(RetVal(r, idx), b, hist, e.Depth) {
 		case True:
 			sawT = true
 		case False:
